@@ -37,6 +37,24 @@
 (* explored for every case; the printed ones (all if PM_SweepAll, else one *)
 (* extension of every sequence one shorter: each layout of the class is    *)
 (* then first exactly once per case) are replayed against the library.     *)
+(* Interference: per case one more behaviour  layout q ; the same path on   *)
+(* ANOTHER value of the class (an unrelated call on the same operator      *)
+(* object) ; layout q again - the repeated call must return the remembered *)
+(* result (nothing the unrelated call leaves behind in the operator may    *)
+(* reach it).                                                              *)
+(*                                                                         *)
+(* OPERATOR ALGEBRA (mode "algebra").  Third family: a case is a           *)
+(* declaration d (PM_Decls: PSD, SelfAdjoint, Unitary, Stiefel, none); ops *)
+(* holds two operands X, Y declared d.  A step applies one operation of    *)
+(* PM_Algebra (negation, subtraction, scalar multiplication / division on  *)
+(* both sides with positive, negative, integer, complex and zero scalars,  *)
+(* sum, products, kron, kronsum, block_diag, .T, .H, slicing, indexing,    *)
+(* the declaration wrappers, application to an array) to them:             *)
+(* CallOnOperands, which creates nothing in ops (the result is a value)    *)
+(* and must leave X and Y - matrix, ANNOTATIONS, leaves, full state -      *)
+(* unchanged.  All sequences of PM_AlgLen operations are explored per      *)
+(* case; printed: all if PM_AlgAll, else one extension of every sequence   *)
+(* one shorter (each operation is then first exactly once per case).       *)
 (***************************************************************************)
 EXTENDS Persist, Json, PersistModel
 
@@ -84,13 +102,24 @@ Kinds(c) == PM_Classes[c]
 
 SweepInit == /\ mode = "sweep"
              /\ sw \in {k \in SweepCases: ValidCase(k)}
-             /\ owned = [lay \in SeqToSet(Kinds(sw.c)) |-> <<"value-of-class", sw.c, "in-layout", lay>>]
+             /\ owned = [lay \in SeqToSet(Kinds(sw.c)) \cup {"other-value"} |->
+                            IF lay = "other-value" THEN <<"another-value-of-class", sw.c>>
+                            ELSE <<"value-of-class", sw.c, "in-layout", lay>>]
              /\ ops = << <<"path", sw.p>> >>
              /\ memo = <<>>
              /\ live = <<[n |-> 4, spd |-> FALSE]>>
              /\ hist = <<>>
 
-MCInit == SeqInit \/ SweepInit
+AlgInit == /\ mode = "algebra"
+           /\ sw \in {[d |-> PM_Decls[i]]: i \in 1..Len(PM_Decls)}
+           /\ owned = ("operand-arrays" :> "initial-value")
+           /\ ops = [i \in 1..2 |-> <<IF i = 1 THEN "X" ELSE "Y", "declared", sw.d,
+                                      "dense", "annotations", "leaves", "state">>]
+           /\ memo = <<>>
+           /\ live = [i \in 1..2 |-> [n |-> 4, spd |-> sw.d = "PSD"]]
+           /\ hist = <<>>
+
+MCInit == SeqInit \/ SweepInit \/ AlgInit
 
 Step(ai, x) ==
     LET a == PM_Acts[ai]
@@ -103,15 +132,38 @@ Step(ai, x) ==
     /\ hist' = Append(hist, sig)
 
 (* one call of the swept path with the argument in layout Kinds(sw.c)[q]; the signature does not mention q *)
+IsInterference == Len(hist) >= 2 /\ hist[2][2] = 0
+SweepSig == <<"sweep", sw.p, sw.s, sw.c>>
 SweepStep(q) ==
-    LET sig == <<"sweep", sw.p, sw.s, sw.c>> IN
     /\ mode = "sweep" /\ UNCHANGED <<mode, sw, live>>
-    /\ Len(hist) < PM_SweepLen
-    /\ CallOnArgument(sig, sig, <<>>, Kinds(sw.c)[q])
+    /\ Len(hist) < PM_SweepLen /\ ~IsInterference
+    /\ CallOnArgument(SweepSig, SweepSig, <<>>, Kinds(sw.c)[q])
     /\ hist' = Append(hist, <<0, q>>)
+(* the unrelated call (same path, same operator object, another value), then the first call again *)
+SweepOther ==
+    LET sig == <<"sweep-other", sw.p, sw.s, sw.c>> IN
+    /\ mode = "sweep" /\ UNCHANGED <<mode, sw, live>>
+    /\ Len(hist) = 1
+    /\ CallOnArgument(sig, sig, <<>>, "other-value")
+    /\ hist' = Append(hist, <<0, 0>>)
+SweepRepeat ==
+    /\ mode = "sweep" /\ UNCHANGED <<mode, sw, live>>
+    /\ Len(hist) = 2 /\ IsInterference
+    /\ CallOnArgument(SweepSig, SweepSig, <<>>, Kinds(sw.c)[hist[1][2]])
+    /\ hist' = Append(hist, hist[1])
+
+(* one operation of the operator algebra on the declared operands X (ops[1]) and, if binary, Y (ops[2]) *)
+AlgStep(o) ==
+    LET sig == <<"algebra", sw.d, PM_Algebra[o].name>> IN
+    /\ mode = "algebra" /\ UNCHANGED <<mode, sw, live>>
+    /\ Len(hist) < PM_AlgLen
+    /\ CallOnOperands(sig, sig, <<>>, 1..PM_Algebra[o].arity)
+    /\ hist' = Append(hist, <<0, o>>)
 
 MCNext == \/ \E ai \in 1..NA: \E x \in 1..Len(live): Step(ai, x)
           \/ \E q \in 1..(IF mode = "sweep" THEN Len(Kinds(sw.c)) ELSE 0): SweepStep(q)
+          \/ SweepOther \/ SweepRepeat
+          \/ \E o \in 1..(IF mode = "algebra" THEN Len(PM_Algebra) ELSE 0): AlgStep(o)
 MCSpec == MCInit /\ [][MCNext]_<<owned, ops, memo, live, hist, mode, sw>>
 
 Typed == Len(ops) = Len(live)
@@ -126,9 +178,17 @@ RECURSIVE QSum(_, _)
 QSum(h, j) == IF j >= Len(h) THEN 0 ELSE 3 * h[j][2] + QSum(h, j + 1)
 SelectedSweep == PM_SweepAll \/ (QSum(hist, 1) + hist[Len(hist)][2] + PM_SweepRes) % Len(Kinds(sw.c)) = 0
 
-Emit == IF mode = "seq"
-        THEN (Len(hist) = PM_MaxLen /\ SelectedLeaf) => PrintT(ToJson([h |-> hist]))
-        ELSE (Len(hist) = PM_SweepLen /\ SelectedSweep) =>
-                PrintT(ToJson([sw |-> [p |-> PM_Paths[sw.p].name, s |-> sw.s, c |-> sw.c],
-                               q |-> [j \in 1..Len(hist) |-> Kinds(sw.c)[hist[j][2]]]]))
+SelectedAlg == PM_AlgAll \/ (QSum(hist, 1) + hist[Len(hist)][2] + PM_AlgRes) % Len(PM_Algebra) = 0
+
+Emit == CASE mode = "seq" -> (Len(hist) = PM_MaxLen /\ SelectedLeaf) => PrintT(ToJson([h |-> hist]))
+          [] mode = "sweep" ->
+                LET kd(j) == IF hist[j][2] = 0 THEN "other" ELSE Kinds(sw.c)[hist[j][2]]
+                    pick == IF IsInterference
+                            THEN Len(hist) = 3 /\ (PM_SweepAll \/ hist[1][2] = (PM_SweepRes % Len(Kinds(sw.c))) + 1)
+                            ELSE Len(hist) = PM_SweepLen /\ SelectedSweep IN
+                pick => PrintT(ToJson([sw |-> [p |-> PM_Paths[sw.p].name, s |-> sw.s, c |-> sw.c],
+                                       q |-> [j \in 1..Len(hist) |-> kd(j)]]))
+          [] mode = "algebra" ->
+                (Len(hist) = PM_AlgLen /\ SelectedAlg) =>
+                    PrintT(ToJson([alg |-> sw.d, q |-> [j \in 1..Len(hist) |-> PM_Algebra[hist[j][2]].name]]))
 =============================================================================
